@@ -129,6 +129,14 @@ func helloEqual(got *p2p.VerifProtoHandshake, want helloSpec, id discover.NodeID
 // "what is delivered is what was written" are reported directly.
 func runSession(c *fw.Ctx, sp *sessionSpec) *sessionResult {
 	res := &sessionResult{}
+	// payloads are produced lazily from their seeds: do it before any goroutine
+	// of the session exists
+	for i := range sp.AtoB {
+		sp.AtoB[i].bytes()
+	}
+	for i := range sp.BtoA {
+		sp.BtoA[i].bytes()
+	}
 	keyA, _ := btcec.PrivKeyFromBytes(unhx(sp.KeyA))
 	keyB, _ := btcec.PrivKeyFromBytes(unhx(sp.KeyB))
 	idA, idB := pubID(keyA), pubID(keyB)
